@@ -203,7 +203,9 @@ def gen_curve(rng, pmax=5, rational=None, nint=None):
     if rational:
         ws = gc.weights(rng, n)
         P = [[c * w for c in pt] + [w] for pt, w in zip(P, ws)]
-    return {"p": p, "U": U, "P": P, "rational": rational, "normalize": normalize, "kind": kind}
+    # the non-default span search option (binary search) on clamped knot vectors: same spans, hence same derivatives
+    return {"p": p, "U": U, "P": P, "rational": rational, "normalize": normalize, "kind": kind,
+            "binsearch": kind in ("uniform", "mult", "affine") and rng.random() < 0.25}
 
 
 def gen_surface(rng, pmax=4, rational=None):
@@ -221,12 +223,14 @@ def gen_surface(rng, pmax=4, rational=None):
     if rational:
         ws = gc.weights(rng, n)
         P = [[c * w for c in pt] + [w] for pt, w in zip(P, ws)]
-    out.update({"P": P, "rational": rational, "normalize": normalize})
+    out.update({"P": P, "rational": rational, "normalize": normalize,
+                "binsearch": all(out["kind" + d] in ("uniform", "mult", "affine") for d in "uv") and rng.random() < 0.25})
     return out
 
 
 def mk_curve(c, alg2=False):
-    crv = (NURBS.Curve if c["rational"] else BSpline.Curve)(normalize_kv=c["normalize"])
+    kw = {"find_span_func": helpers.find_span_binsearch} if c.get("binsearch") else {}
+    crv = (NURBS.Curve if c["rational"] else BSpline.Curve)(normalize_kv=c["normalize"], **kw)
     crv.degree = c["p"]
     if c["rational"]:
         crv.ctrlptsw = [list(pt) for pt in c["P"]]
@@ -241,7 +245,8 @@ def mk_curve(c, alg2=False):
 
 
 def mk_surface(c, alg2=False):
-    srf = (NURBS.Surface if c["rational"] else BSpline.Surface)(normalize_kv=c["normalize"])
+    kw = {"find_span_func": helpers.find_span_binsearch} if c.get("binsearch") else {}
+    srf = (NURBS.Surface if c["rational"] else BSpline.Surface)(normalize_kv=c["normalize"], **kw)
     srf.degree_u, srf.degree_v = c["pu"], c["pv"]
     srf.set_ctrlpts([list(pt) for pt in c["P"]], c["su"], c["sv"])
     srf.knotvector_u = list(c["Uu"])
